@@ -1,9 +1,24 @@
 import HC.Proofs.Frame
 import HC.Proofs.Bitfield
+import HC.Proofs.LiveRefine
 /-!
 # C01 — log contents equal an append-only list model, across close and reopen
 
-Proved so far (all unbounded), each a component of the refinement `Full` below:
+**`live_refinement`** (unbounded, every crypto record with 32-byte non-zero digests): starting from a
+freshly created core (`created`) — or any state satisfying the representation invariant `Rep` —
+**every** sequence of `append_batch` / `clear` / `get` / `has` / `info` calls on the model of the crate
+(memory state + the four stores, each call's journal applied to the disk) yields exactly the
+observations of the abstract log `LogSpec.Abs` (block list + held set): lengths and byte lengths of
+appends, block bytes of reads (`None` exactly for blocks that are not held), `has`, and
+`info().contiguous_length` = the first missing index; and `Rep` holds again afterwards.  `Rep` says:
+roots = reference roots, node lookup (unflushed map, then the tree store) = reference tree, bitfield =
+held set, hint = first missing index, every held block's bytes sit in the data store at the
+prefix-sum offset.  The flush cadence (every fourth operation / 64 KiB) is inside the model, so the
+theorem covers histories in which nodes move from memory to the store at arbitrary points.
+
+What is **not** proved (validated by the correspondence run): that `Hypercore::new` on the disk left by
+such a history reconstructs a state satisfying `Rep` (reopen / replay — `Full` below), hence
+`refines_partial` keeps its name for the reopen components:
 
 * `entry_reopen`   : every log entry the crate can write (any combination of the four sections)
   decodes to itself, whatever follows it in the file;
@@ -11,12 +26,80 @@ Proved so far (all unbounded), each a component of the refinement `Full` below:
 * `frame_reopen`   : the checksummed leader yields payload and both bits back;
 * `held_after`     : range updates of the held set (append = set, clear = drop) are exact.
 
-`refines_partial` is therefore **partial**: the statement that a whole history's observations equal
-the list model's (`Full`) is validated by the correspondence run (implementation = Lean model =
-list-model oracle on every generated history), not yet proved.
+`refines_partial` is **partial** in that sense: histories that contain close-and-reopen steps are
+validated by the correspondence run (implementation = Lean model = list-model oracle on every generated
+history), not yet proved.
 -/
 namespace HC.C01
-open HC HC.Oplog HC.Codec
+open HC HC.Oplog HC.Codec HC.LogSpec HC.LiveRefine HC.TreeStore
+
+/-- run a sequence of API calls on the model of the crate -/
+def runC (C : Crypto) (s : Core × Disk) : List Op → (Core × Disk) × List Obs
+  | [] => (s, [])
+  | op :: rest =>
+    let r := stepC C s op
+    let rr := runC C r.1 rest
+    (rr.1, r.2 :: rr.2)
+
+/-- the same calls on the abstract log -/
+def runA (a : Abs) : List Op → Abs × List Obs
+  | [] => (a, [])
+  | op :: rest =>
+    let r := a.step op
+    let rr := runA r.1 rest
+    (rr.1, r.2 :: rr.2)
+
+/-- every call is within C01's quantifier in the abstract state it is issued in -/
+def AllValid (a : Abs) : List Op → Prop
+  | [] => True
+  | op :: rest => Valid a op ∧ AllValid (a.step op).1 rest
+
+theorem step_refines (C : Crypto) (hC : HashWF C) (c : Core) (d : Disk) (a : Abs) (h : Rep C c d a) (op : Op)
+    (hv : Valid a op) :
+    (stepC C (c, d) op).2 = (a.step op).2 ∧ Rep C (stepC C (c, d) op).1.1 (stepC C (c, d) op).1.2 (a.step op).1 := by
+  cases op with
+  | append batch => exact append_refines C hC c d a h batch hv
+  | clear s e => exact clear_refines C hC c d a h s e hv
+  | get i => rw [get_refines C c d a h i]; exact ⟨rfl, h⟩
+  | has i => rw [has_refines C c d a h i]; exact ⟨rfl, h⟩
+  | info => rw [info_refines C c d a h]; exact ⟨rfl, h⟩
+
+/-- **C01, live part.**  Any sequence of calls from a state satisfying `Rep` is observationally the
+    abstract log, and ends in a state satisfying `Rep`. -/
+theorem live_refinement (C : Crypto) (hC : HashWF C) (ops : List Op) :
+    ∀ (c : Core) (d : Disk) (a : Abs), Rep C c d a → AllValid a ops →
+      (runC C (c, d) ops).2 = (runA a ops).2
+        ∧ Rep C (runC C (c, d) ops).1.1 (runC C (c, d) ops).1.2 (runA a ops).1 := by
+  induction ops with
+  | nil => intro c d a h _; exact ⟨rfl, h⟩
+  | cons op rest ih =>
+    intro c d a h hv
+    obtain ⟨h1, h2⟩ := step_refines C hC c d a h op hv.1
+    obtain ⟨i1, i2⟩ := ih _ _ _ h2 hv.2
+    simp only [runC, runA]
+    exact ⟨by rw [h1, i1], i2⟩
+
+/-- a freshly created core represents the empty log -/
+theorem created (C : Crypto) (pk sk : Bytes) :
+    ∃ c j, Core.openCore C (some (pk, some sk)) {} = .ok (c, j) ∧ Rep C c (({} : Disk).applyAll j) {} :=
+  init_rep C pk sk
+
+/-- hence every history of a freshly created core behaves like the list model -/
+theorem created_refines (C : Crypto) (hC : HashWF C) (pk sk : Bytes) (ops : List Op) (hv : AllValid {} ops) :
+    ∃ c j, Core.openCore C (some (pk, some sk)) {} = .ok (c, j)
+      ∧ (runC C (c, ({} : Disk).applyAll j) ops).2 = (runA {} ops).2 := by
+  obtain ⟨c, j, h1, h2⟩ := created C pk sk
+  exact ⟨c, j, h1, (live_refinement C hC ops c _ {} h2 hv).1⟩
+
+/-- non-vacuity of the hypothesis on the hash functions: a record with constant non-zero 32-byte digests -/
+example : HashWF { leaf := fun _ => List.replicate 32 1, parent := fun _ _ _ => List.replicate 32 2, tree := fun _ => [],
+                   publicKey := id, sign := fun _ _ => [], verify := fun _ _ _ => true } :=
+  ⟨fun _ => by simp, fun _ _ _ => by simp, fun _ => by simp, fun _ _ _ => by simp⟩
+
+/-- non-vacuity: a concrete history is within the quantifier, and the abstract log answers it -/
+example : AllValid {} [.append [[1, 2], []], .clear 0 1, .get 0, .get 1, .append [[3]], .info] := by
+  simp [AllValid, Valid, Abs.step, totalBytes]
+example : (runA {} [.append [[1, 2], []], .clear 0 1, .has 0, .has 1]).2.length = 4 := rfl
 
 theorem entry_reopen (e : Entry) (wf : e.WF) (rest : Bytes) : decEntry (encEntry e ++ rest) = some (e, rest) :=
   decEntry_enc e wf rest
